@@ -344,6 +344,8 @@ CLAIMED["C01"]["text"] += (" The tie-break contracts on the turn path are run by
     "_match_keywords (seeds in sorted label order), the output region of _t1_one_graph (touched nodes in strictly increasing id order).")
 CLAIMED["C20"]["text"] += (" The structural half of the store / cache-manager fail-soft is run by this check too: every store call and every "
     "cache-manager call of apply_changes sits inside a catch-all handler.")
+CLAIMED["C07"]["text"] += (" A further bounded family has JSON null leaves (a key that is present and holds null is not an absent key).")
+CLAIMED["C14"]["note"] += (" A value-dependent skip of a range check (explicit null accepted and left in the normalised config: seed C14-E) is not detected.")
 CLAIMED["C02"]["text"] += (" Value flow: the persistence layer (clematis/engine/snapshot.py, which runs whatever the gates say) reads no "
     "validator-accepted key of the graph / perf / scheduler subtrees (accepted-key sets read from configs/validate.py on every run).")
 CLAIMED["C10"]["text"] += (" The capture path of a compute phase is under contract too (shared with C16): LogMux.write/dump/clear (append in "
